@@ -200,6 +200,18 @@ func (pc *ProtoCtx) Build(st map[string]interface{}) ([]byte, M, error) {
 			body := pkt[8:]
 			pkt = tsgu.Packet(tsgu.PktTunnelCreate, body[:rng.Intn(8)])
 			lp["hascookie"] = false
+		} else if cls == "short" && ck != "none" {
+			// the cookie field announces the length of the whole cookie, but the packet ends before it (no cookie bytes at
+			// all, or the first half): what the gateway judges is what the packet carried, never what it announced
+			u := tsgu.UTF16LE(cookie)
+			cut := 0
+			if rng.Intn(2) == 0 {
+				cut = (len(u) / 4) * 2
+			}
+			pkt = tsgu.TunnelCreateRaw(0x2, 0x1, uint16(len(u)), u[:cut])
+			if t, ok := lp["tok"].(M); ok {
+				t["mut"] = "trunc"
+			}
 		} else if cls == "long" && ck != "none" {
 			u := tsgu.UTF16LE(cookie)
 			// the declared cookie is longer than what is carried: the gateway sees the string followed by k NUL units.
